@@ -13,6 +13,8 @@ import AfkakProofs.Crc.Agree
 import AfkakProofs.Crc.AgreeResp
 import AfkakProofs.Crc.AgreeResp2
 import AfkakProofs.Crc.Alloc
+import AfkakProofs.Crc.Wrapped
+import AfkakProofs.Crc.Refetch
 import AfkakProps.Open.C12
 /-!
 # C12 — corrupted or truncated message data is never delivered; decoding is linear
@@ -76,6 +78,20 @@ theorem C12_burst_in_set (gz : Gz) (depth : Nat) (before : List (Int × Msg)) (o
     (decodeSet gz depth data).msgs = before ∧ (decodeSet gz depth data).err = some Err.checksum :=
   decodeSet_corrupt gz depth before off msg e k tail hpl ho hlen hcrc hb
 
+/-- The same when the entries before the altered message may be gzip wrappers of either format
+    (payload decompressing to a set of plain messages): exactly what they contain is yielded,
+    then `ChecksumError`. -/
+theorem C12_burst_in_set_wrapped (gz : Gz) (depth : Nat) (before : List SetEntry) (off : Int)
+    (msg e : List UInt8) (k : Nat) (tail : List UInt8)
+    (hwf : ∀ s ∈ before, s.WellFormed gz) (ho : int64 off = true)
+    (hlen : msg.length < 2147483648)
+    (hcrc : crcOk msg = true) (hb : isBurst msg.length e k = true) :
+    let bad := xorBytes msg e
+    let data := encodeEntries before ++ (toBESigned 8 off ++ toBESigned 4 bad.length ++ bad) ++ tail
+    (decodeSet gz (depth + 1) data).msgs = before.flatMap SetEntry.yields ∧
+    (decodeSet gz (depth + 1) data).err = some Err.checksum :=
+  decodeSet_corrupt_entries gz depth before off msg e k tail hwf ho hlen hcrc hb
+
 /-- The model's outcome satisfies the monitor that is evaluated on the real decoder's outcome. -/
 theorem C12_burst_monitor (gz : Gz) (depth : Nat) (before : List (Int × Msg)) (off : Int)
     (msg e : List UInt8) (k : Nat) (tail : List UInt8)
@@ -126,6 +142,42 @@ theorem C12_truncate (gz : Gz) (depth : Nat) (ms : List (Int × Msg)) (c : Nat)
            else some Err.fetchSizeTooSmall) :=
   decodeSet_truncate gz depth ms c hpl hc
 
+/-- **Truncation, sets with gzip wrappers.**  Entries are plain messages or gzip wrappers of either
+    message format whose payload the decompressor turns into the encoding of a set of plain
+    messages (the `gunzip ∘ gzip` hypothesis, per payload: `SetEntry.WellFormed`).  Iterating the
+    first `c` bytes yields exactly what the complete entries contain — inner messages with their
+    stored offsets under a format-0 wrapper, re-based on the wrapper's offset under a format-1
+    wrapper — and ends normally when the cut is on an entry boundary or something was yielded,
+    with `ConsumerFetchSizeTooSmall` otherwise.  (With plain entries only this is `C12_truncate`;
+    an empty wrapper is a complete entry that yields nothing, hence the wording.) -/
+theorem C12_truncate_wrapped (gz : Gz) (depth : Nat) (es : List SetEntry) (c : Nat)
+    (hwf : ∀ e ∈ es, e.WellFormed gz) (hc : c ≤ (encodeEntries es).length) :
+    let n := completeCount (es.map SetEntry.len) c
+    let ys := (es.take n).flatMap SetEntry.yields
+    (decodeSet gz (depth + 1) ((encodeEntries es).take c)).msgs = ys ∧
+    (decodeSet gz (depth + 1) ((encodeEntries es).take c)).err
+      = (if !ys.isEmpty || decide (c = ((es.take n).map SetEntry.len).sum) then none
+         else some Err.fetchSizeTooSmall) :=
+  decodeSet_truncate_entries gz depth es c hwf hc
+
+/-- … and satisfies the monitor `truncOkG` evaluated on the real decoder for sets with wrappers. -/
+theorem C12_truncate_wrapped_monitor (gz : Gz) (depth : Nat) (es : List SetEntry) (c : Nat)
+    (hwf : ∀ e ∈ es, e.WellFormed gz) (hc : c ≤ (encodeEntries es).length) :
+    truncOkG (es.map SetEntry.len) (es.map SetEntry.yields) c
+      (decodeSet gz (depth + 1) ((encodeEntries es).take c)).msgs
+      (decodeSet gz (depth + 1) ((encodeEntries es).take c)).err = true := by
+  obtain ⟨h1, h2⟩ := decodeSet_truncate_entries gz depth es c hwf hc
+  unfold truncOkG
+  have hflat : ∀ n, ((es.map SetEntry.yields).take n).flatten = (es.take n).flatMap SetEntry.yields := by
+    intro n; simp [List.flatMap_def, List.map_take]
+  have hlens : ∀ n, (es.map SetEntry.len).take n = (es.take n).map SetEntry.len := by
+    intro n; simp [List.map_take]
+  simp only [hflat, hlens]
+  rw [h1, h2]
+  generalize (es.take (completeCount (es.map SetEntry.len) c)).flatMap SetEntry.yields = ys
+  generalize ((es.take (completeCount (es.map SetEntry.len) c)).map SetEntry.len).sum = t
+  cases ys <;> by_cases hct : c = t <;> simp [hct]
+
 /-- The model's outcome satisfies the truncation monitor evaluated on the real decoder. -/
 theorem C12_truncate_monitor (gz : Gz) (depth : Nat) (ms : List (Int × Msg)) (c : Nat)
     (hpl : ∀ om ∈ ms, plainEntry om = true) (hc : c ≤ (encodeSet ms).length) :
@@ -160,6 +212,29 @@ theorem C12_grow (b : Nat) (max : Option Nat) (hb : 1 ≤ b) :
     intro m hm; subst hm; exact grow_le_max b m b' h
   · intro m size _ hbm hs
     exact growN_reaches m size hs (size - b) b rfl hb hbm
+
+/-- The growth function of this package is the consumer model's `Afkak.Consumer.grow` (the one the
+    C14 theorems are about): both are built from the literals of the same handler. -/
+theorem C12_grow_is_consumer_grow (b : Nat) (max : Option Nat) :
+    grow b max = Afkak.Consumer.grow b max :=
+  grow_eq_consumer b max
+
+/-- **The consumer MODEL's reaction to a too-small answer satisfies `refetchOk`** — the monitor the
+    harness evaluates on the real `Consumer`: a running consumer with no block in progress that
+    receives a reply with no complete message and the fetch-size-too-small ending keeps its fetch
+    offset and sets its buffer to `grow buffer max` (at the maximum: keeps both and fails `start`).
+    The other half of `refetchOk` (complete messages were delivered: the next fetch starts after
+    the last of them with the same buffer) is the open statement `C12_refetch_after_delivery`. -/
+theorem C12_refetch_model (cfg : Afkak.Consumer.Cfg) (inner : Afkak.Consumer.Ops) (k : Nat)
+    (s : Afkak.Consumer.St) (hr : s.startD = .pending) (hb : s.msgBlock = false)
+    (offs : List Int) (c : Nat) (hc : 0 < c) :
+    refetchOk offs 0 s.fetchOffset
+      (Afkak.Consumer.handleFetchResponse cfg inner k { msgs := [], tail := .small } s).fetchOffset
+      s.bufferSize cfg.bufMax c
+      (match Afkak.Consumer.grow s.bufferSize cfg.bufMax with
+        | some _ => some (Afkak.Consumer.handleFetchResponse cfg inner k { msgs := [], tail := .small } s).bufferSize
+        | none => none) = true :=
+  consumer_refetchOk cfg inner k s hr hb offs c hc
 
 /-- Without a maximum the buffer is multiplied by the source's factor for the current size
     (`c12GrowFactorSmall` up to `c12GrowThreshold`, `c12GrowFactor` above), which is at least 2. -/
@@ -244,19 +319,64 @@ theorem C12_alloc_msgset (gz : Gz) (depth : Nat) (data : List UInt8) :
       ≤ 3 * (data.length + (@decodeSet bytesMeasure gz depth data).gz) :=
   decodeSet_alloc gz depth data
 
-theorem C12_alloc_monitor (gz : Gz) (depth : Nat) (data : List UInt8) :
-    allocOk data.length (run (@decodeMetadata bytesMeasure) data).cost = true ∧
-    setAllocOk data.length (@decodeSet bytesMeasure gz depth data).gz
-      (@decodeSet bytesMeasure gz depth data).cost = true := by
-  refine ⟨?_, ?_⟩
-  · simpa [allocOk] using tight_run tight_decodeMetadata data
-  · simpa [setAllocOk] using decodeSet_alloc gz depth data
+/-- Every response decoder's allocation measure satisfies the monitor `allocOk`, and message-set
+    iteration `setAllocOk`, as evaluated on the bytes the real decoder slices. -/
+theorem C12_alloc_monitor (gz : Gz) (depth : Nat) (v : Int) (bs : List UInt8) :
+    allocOk bs.length (run (@decodeApiVersions bytesMeasure) bs).cost = true ∧
+    allocOk bs.length (run (@decodeProduce bytesMeasure v) bs).cost = true ∧
+    allocOk bs.length (run (@decodeFetch bytesMeasure v) bs).cost = true ∧
+    allocOk bs.length (run (@decodeOffset bytesMeasure) bs).cost = true ∧
+    allocOk bs.length (run (@decodeMetadata bytesMeasure) bs).cost = true ∧
+    allocOk bs.length (run (@decodeConsumerMetadata bytesMeasure) bs).cost = true ∧
+    allocOk bs.length (run (@decodeOffsetCommit bytesMeasure) bs).cost = true ∧
+    allocOk bs.length (run (@decodeOffsetFetch bytesMeasure) bs).cost = true ∧
+    allocOk bs.length (run (@decodeJoinGroupProtocolMetadata bytesMeasure) bs).cost = true ∧
+    allocOk bs.length (run (@decodeJoinGroup bytesMeasure) bs).cost = true ∧
+    allocOk bs.length (run (@decodeLeaveGroup bytesMeasure) bs).cost = true ∧
+    allocOk bs.length (run (@decodeHeartbeat bytesMeasure) bs).cost = true ∧
+    allocOk bs.length (run (@decodeSyncGroup bytesMeasure) bs).cost = true ∧
+    allocOk bs.length (run (@decodeSyncGroupMemberAssignment bytesMeasure) bs).cost = true ∧
+    setAllocOk bs.length (@decodeSet bytesMeasure gz depth bs).gz
+      (@decodeSet bytesMeasure gz depth bs).cost = true := by
+  obtain ⟨h1, h2, h3, h4, h5, h6, h7, h8, h9, h10, h11, h12, h13, h14⟩ := C12_alloc_decoders v bs
+  refine ⟨?_, ?_, ?_, ?_, ?_, ?_, ?_, ?_, ?_, ?_, ?_, ?_, ?_, ?_, ?_⟩ <;>
+    first
+      | (simp only [allocOk, decide_eq_true_eq]; assumption)
+      | (simpa [setAllocOk] using decodeSet_alloc gz depth bs)
 
-/-- Every response decoder's outcome satisfies the monitor `readsOk` evaluated on the real decoder's
-    step count (one instance shown; the other thirteen are the same line). -/
-theorem C12_linear_monitor (bs : List UInt8) :
-    readsOk bs.length (run decodeMetadata bs).cost = true := by
-  simpa [readsOk] using C12_linear_metadata bs
+/-- Every response decoder's read count satisfies the monitor `readsOk` evaluated on the real
+    decoder's step count (all fourteen). -/
+theorem C12_linear_monitor (v : Int) (bs : List UInt8) :
+    readsOk bs.length (run decodeApiVersions bs).cost = true ∧
+    readsOk bs.length (run (decodeProduce v) bs).cost = true ∧
+    readsOk bs.length (run (decodeFetch v) bs).cost = true ∧
+    readsOk bs.length (run decodeOffset bs).cost = true ∧
+    readsOk bs.length (run decodeMetadata bs).cost = true ∧
+    readsOk bs.length (run decodeConsumerMetadata bs).cost = true ∧
+    readsOk bs.length (run decodeOffsetCommit bs).cost = true ∧
+    readsOk bs.length (run decodeOffsetFetch bs).cost = true ∧
+    readsOk bs.length (run decodeJoinGroupProtocolMetadata bs).cost = true ∧
+    readsOk bs.length (run decodeJoinGroup bs).cost = true ∧
+    readsOk bs.length (run decodeLeaveGroup bs).cost = true ∧
+    readsOk bs.length (run decodeHeartbeat bs).cost = true ∧
+    readsOk bs.length (run decodeSyncGroup bs).cost = true ∧
+    readsOk bs.length (run decodeSyncGroupMemberAssignment bs).cost = true := by
+  refine ⟨?_, ?_, ?_, ?_, ?_, ?_, ?_, ?_, ?_, ?_, ?_, ?_, ?_, ?_⟩ <;>
+    simp only [readsOk, decide_eq_true_eq]
+  · exact C12_linear_api_versions bs
+  · exact C12_linear_produce v bs
+  · exact C12_linear_fetch v bs
+  · exact C12_linear_offset bs
+  · exact C12_linear_metadata bs
+  · exact C12_linear_consumermetadata bs
+  · exact C12_linear_offset_commit bs
+  · exact C12_linear_offset_fetch bs
+  · exact C12_linear_join_group_protocol_metadata bs
+  · exact C12_linear_join_group bs
+  · exact C12_linear_leave_group bs
+  · exact C12_linear_heartbeat bs
+  · exact C12_linear_sync_group bs
+  · exact C12_linear_sync_group_member_assignment bs
 
 /-- **Message sets**, every byte string, every gunzip function, every nesting depth: reader calls
     + bytes checksummed ≤ 2·(|data| + bytes obtained from gunzip) + 2. -/
@@ -412,6 +532,23 @@ example : isBurst 27 [0, 0, 0, 0, 0, 0, 0, 0, 0, 0x10, 0, 0, 0, 0,
 example : plainEntry (7, { magic := 0, attrs := 0, key := some [1, 2], value := some [3], ts := none }) = true
     ∧ plainEntry (8, { magic := 1, attrs := 8, key := none, value := some [], ts := some 1700000000000 }) = true := by
   decide +kernel
+/-- a well-formed format-1 gzip wrapper (for a decompressor that answers its payload with the
+    encoding of the inner set) and what it contains: inner relative offsets 0, 2 under wrapper
+    offset 105 become 103, 105 -/
+example :
+    let ims : List (Int × Msg) := [(0, { magic := 1, attrs := 0, key := none, value := some [97], ts := some 1 }),
+                                    (2, { magic := 1, attrs := 0, key := none, value := some [98], ts := some 2 })]
+    let wm : Msg := { magic := 1, attrs := 1, key := none, value := some [31, 139, 8], ts := some 0 }
+    let gz : Gz := fun v => if v = some [31, 139, 8] then .ok (encodeSet ims) else .error "BadGzipFile"
+    (SetEntry.wrapper 105 wm ims).WellFormed gz ∧
+    (SetEntry.wrapper 105 wm ims).yields
+      = [((103 : Int), { magic := 1, attrs := 0, key := none, value := some [97], ts := some 1 }),
+         ((105 : Int), { magic := 1, attrs := 0, key := none, value := some [98], ts := some 2 })] := by
+  refine ⟨⟨by decide, by decide +kernel, by decide, by simp, ?_⟩, by decide⟩
+  intro om hom
+  simp only [List.mem_cons, List.not_mem_nil, or_false] at hom
+  rcases hom with rfl | rfl <;> decide +kernel
+
 /-- the encoder used in the theorems produces the 27-byte message above -/
 example : encodeMessage { magic := 1, attrs := 0, key := none, value := some [0, 0, 0, 0, 0], ts := some 0 }
     = [0x49, 0x95, 0xe6, 0x5e, 0x01, 0x00, 0, 0, 0, 0, 0, 0, 0, 0,
@@ -426,14 +563,19 @@ C12_burst_crc
 C12_burst
 C12_crc_field_error
 C12_burst_in_set
+C12_burst_in_set_wrapped
 C12_burst_monitor
 C12_burst_any_position_counterexample
 C12_truncate
 C12_truncate_monitor
+C12_truncate_wrapped
+C12_truncate_wrapped_monitor
 C12_message_roundtrip
 C12_msgset_roundtrip
 C12_grow
 C12_grow_factors
+C12_grow_is_consumer_grow
+C12_refetch_model
 C12_linear_readers
 C12_linear_api_versions
 C12_linear_produce
@@ -467,4 +609,5 @@ C12_agree_structured
 -/
 /- OPEN_STATEMENTS
 C12_burst_any_position
+C12_refetch_after_delivery
 -/
